@@ -2068,6 +2068,9 @@ impl Connection {
             _ => unreachable!("first packet must be delivered in Handshake state"),
         }
 
+        // Ensure a duplicate of this packet routed to us later is recognized as such
+        self.spaces[SpaceId::Initial].dedup.insert(packet_number);
+
         self.on_packet_authenticated(
             now,
             SpaceId::Initial,
